@@ -1,7 +1,8 @@
 (* C38 - Concurrent commits log page images in commit order.
    Property theorems only.  The system is Model/CommitOrder.v: pages modified in place, the GLOBAL
    dirty tracker, capture of page images under the file-manager lock at COMMIT, and - after the
-   lock is released - the C37 group-commit protocol (Model/GroupCommit.v).  The log of frames is
+   lock is released - the C37 group-commit protocol (Model/GroupCommit.v; [step38 true] = the code as
+   it is, /repo 77fabcc).  The log of frames is
    what a replay applies in order, so "replaying gives every page its most recent committed
    image" is [order_ok (frames s)], and "every page a committed transaction modified is covered by
    the log before the commit returns" is [covered (frames s) a] for its acknowledgement [a].
@@ -15,7 +16,7 @@ Open Scope Z_scope.
 (* the code as it is: two handles, one page; the log ends with the OLDER image of the page although
    both transactions were acknowledged (A is preempted between capture and submit) *)
 Theorem log_order_refuted :
-  let s := run (step38 false) order_sched (init38 w_progs) in
+  let s := run (step38 true) order_sched (init38 w_progs) in
   frames s = [(1, 3); (1, 1)] /\ order_ok (frames s) = false /\
   map la_ok (lacks s) = [true; true] /\ all_finished38 s = true /\
   inverted s = true /\ borrowed s = false /\ stolen (sh (base s)) = false.
@@ -24,20 +25,21 @@ Proof. exact log_order_refuted_l. Qed.
 (* the code as it is: a COMMIT returns Ok while the only image holding its update sits in another
    handle's captured, not yet submitted payload - the log is empty *)
 Theorem coverage_refuted :
-  let s := run (step38 false) cover_sched (init38 w_progs) in
+  let s := run (step38 true) cover_sched (init38 w_progs) in
   frames s = [] /\ lacks s = [LAck 0%nat 1 [(1, 0)] true 0] /\
   forallb (covered (frames s)) (lacks s) = false /\
   borrowed s = true /\ inverted s = false /\ stolen (sh (base s)) = false.
 Proof. exact coverage_refuted_l. Qed.
 
-(* what holds: outside classes 2 and 3 every acknowledged transaction has each of its writes in a
-   frame that was in the log when its COMMIT returned - for all handles, programs and schedules *)
+(* what holds: unless a page of the transaction was taken out of the dirty tracker by another
+   handle's capture (class 2), every acknowledged transaction has each of its writes in a frame
+   that was in the log when its COMMIT returned - for all handles, programs and schedules *)
 Theorem coverage_outside_known_classes :
-  forall fx progs sched, wf_progs progs ->
-    let s := run (step38 fx) sched (init38 progs) in
-    borrowed s = false -> stolen (sh (base s)) = false ->
+  forall progs sched, wf_progs progs ->
+    let s := run (step38 true) sched (init38 progs) in
+    borrowed s = false ->
     forall a, In a (lacks s) -> covered (frames s) a = true.
-Proof. exact coverage_outside_known_classes_l. Qed.
+Proof. exact coverage_outside_known_class_l. Qed.
 
 (* the same on the comparer's own notion of case and class *)
 Theorem case_outside_known_classes :
@@ -49,7 +51,7 @@ Proof. exact case_outside_known_classes_l. Qed.
 (* non-vacuity: a run outside all classes in which two handles commit to the same page and both
    are acknowledged with their writes covered and the images in order *)
 Example c38_witness :
-  let s := run (step38 false) (repeat 0%nat 40 ++ repeat 1%nat 40) (init38 w_progs) in
+  let s := run (step38 true) (repeat 0%nat 40 ++ repeat 1%nat 40) (init38 w_progs) in
   borrowed s = false /\ inverted s = false /\ stolen (sh (base s)) = false /\
   frames s = [(1, 1); (1, 3)] /\ order_ok (frames s) = true /\
   map la_ok (lacks s) = [true; true] /\ forallb (covered (frames s)) (lacks s) = true /\ wf_progs w_progs.
@@ -58,9 +60,9 @@ Proof.
   intros p x q u Hp Hx Hin. repeat (destruct Hp as [<-|Hp]; [repeat (destruct Hx as [<-|Hx]; [repeat (destruct Hin as [Hin|Hin]; [inversion Hin; discriminate|]); try contradiction|]); try contradiction|]); contradiction.
 Qed.
 
-Check log_order_refuted : let s := run (step38 false) order_sched (init38 w_progs) in frames s = [(1, 3); (1, 1)] /\ order_ok (frames s) = false /\ map la_ok (lacks s) = [true; true] /\ all_finished38 s = true /\ inverted s = true /\ borrowed s = false /\ stolen (sh (base s)) = false.
-Check coverage_refuted : let s := run (step38 false) cover_sched (init38 w_progs) in frames s = [] /\ lacks s = [LAck 0%nat 1 [(1, 0)] true 0] /\ forallb (covered (frames s)) (lacks s) = false /\ borrowed s = true /\ inverted s = false /\ stolen (sh (base s)) = false.
-Check coverage_outside_known_classes : forall fx progs sched, wf_progs progs -> let s := run (step38 fx) sched (init38 progs) in borrowed s = false -> stolen (sh (base s)) = false -> forall a, In a (lacks s) -> covered (frames s) a = true.
+Check log_order_refuted : let s := run (step38 true) order_sched (init38 w_progs) in frames s = [(1, 3); (1, 1)] /\ order_ok (frames s) = false /\ map la_ok (lacks s) = [true; true] /\ all_finished38 s = true /\ inverted s = true /\ borrowed s = false /\ stolen (sh (base s)) = false.
+Check coverage_refuted : let s := run (step38 true) cover_sched (init38 w_progs) in frames s = [] /\ lacks s = [LAck 0%nat 1 [(1, 0)] true 0] /\ forallb (covered (frames s)) (lacks s) = false /\ borrowed s = true /\ inverted s = false /\ stolen (sh (base s)) = false.
+Check coverage_outside_known_classes : forall progs sched, wf_progs progs -> let s := run (step38 true) sched (init38 progs) in borrowed s = false -> forall a, In a (lacks s) -> covered (frames s) a = true.
 Check case_outside_known_classes : forall c, known_class c = 0 -> let s := fst (final_and_obs c) in forall a, In a (lacks s) -> covered (frames s) a = true.
 
 Print Assumptions log_order_refuted.
